@@ -29,6 +29,7 @@ Definition has_file_extension (s : bytes) : res bool :=
    internal/pkg/postprocessor/extractor/json.go
 
    func isLikelyJSON(str string) bool {
+       str = strings.TrimSpace(str)             (since e71ebd9)
        if len(str) < 5 { return false }
        return ((str[0] == '{' && str[len(str)-1] == '}') || (str[0] == '[' && str[len(str)-1] == ']'))
               && strings.Contains(str, DQUOTE)      -- DQUOTE: the one-byte string holding a double quote
@@ -43,13 +44,15 @@ Definition byte_is (s : bytes) (i : Z) (c : ascii) : res bool :=
 
 (* [guard] = the constant of the length test (5 in the code); a parameter only so that the
    proofs can show which values of it keep the function safe *)
-Definition is_likely_json_g (guard : Z) (s : bytes) : res bool :=
+Definition is_likely_json_core_g (guard : Z) (s : bytes) : res bool :=
   if len s <? guard then Ok false
   else
     and_then
       (or_else (and_then (byte_is s 0 (ch "{")) (byte_is s (len s - 1) (ch "}")))
                (and_then (byte_is s 0 (ch "[")) (byte_is s (len s - 1) (ch "]"))))
       (Ok (contains s [ch """"])).
+Definition is_likely_json_g (guard : Z) (s : bytes) : res bool :=
+  is_likely_json_core_g guard (trim_space s).
 Definition is_likely_json (s : bytes) : res bool := is_likely_json_g 5 s.
 
 (* ---------------------------------------------------------------------------------------
@@ -241,20 +244,70 @@ Section Script.
 End Script.
 
 (* ---------------------------------------------------------------------------------------
-   internal/pkg/postprocessor/extractor/html.go, the srcset / data-srcset blocks:
+   internal/pkg/postprocessor/extractor/html.go (since 5348b7c / c3b0777 one helper replaces the four
+   copies of the Split-based srcset splitting):
 
-       links := strings.Split(link, ",")
-       for _, link := range links {
-           rawAssets = append(rawAssets, strings.Split(strings.TrimSpace(link), " ")[0])
-       } *)
-Fixpoint srcset_loop (links : list bytes) (acc : list bytes) : res (list bytes) :=
-  match links with
-  | [] => Ok acc
-  | l :: r =>
-      u <- index (split (trim_space l) (bs " ")) 0 ;;
-      srcset_loop r (acc ++ [u])
+   func isASCIIWhitespace(c rune) bool { return c == ' ' || c == '\t' || c == '\n' || c == '\f' || c == '\r' }
+
+   func srcsetURLs(value string) (urls []string) {
+       i := 0
+       for {
+           for i < len(value) && (isASCIIWhitespace(rune(value[i])) || value[i] == ',') { i++ }
+           if i >= len(value) { return urls }
+           start := i
+           for i < len(value) && !isASCIIWhitespace(rune(value[i])) { i++ }
+           candidate := value[start:i]
+           if strings.HasSuffix(candidate, ",") {
+               candidate = strings.TrimRight(candidate, ",")
+           } else {
+               for i < len(value) && value[i] != ',' { i++ }
+           }
+           urls = append(urls, candidate)
+       }
+   }
+   Index loops: every value[i] is an explicit [index], every loop iteration costs one unit of fuel. *)
+Definition is_ascii_ws (c : ascii) : bool :=
+  Ascii.eqb c " "%char || Ascii.eqb c (ascii_of_N 9) || Ascii.eqb c (ascii_of_N 10)
+  || Ascii.eqb c (ascii_of_N 12) || Ascii.eqb c (ascii_of_N 13).
+
+(* for i < len(v) && P(v[i]) { i++ } - the value of i afterwards *)
+Fixpoint scan_while (fuel : nat) (P : ascii -> bool) (v : bytes) (i : Z) : res Z :=
+  match fuel with
+  | O => Timeout
+  | S f =>
+      if i <? len v
+      then (c <- index v i ;; if P c then scan_while f P v (i + 1) else Ok i)
+      else Ok i
   end.
-Definition srcset_urls (v : bytes) : res (list bytes) := srcset_loop (split v (bs ",")) [].
+
+(* strings.HasSuffix *)
+Definition has_suffix (s p : bytes) : bool := has_prefix (rev s) (rev p).
+
+Definition ws_or_comma (c : ascii) : bool := is_ascii_ws c || Ascii.eqb c (ch ",").
+Definition not_ws (c : ascii) : bool := negb (is_ascii_ws c).
+Definition not_comma (c : ascii) : bool := negb (Ascii.eqb c (ch ",")).
+
+(* the outer `for { ... }`: result = the URLs and the number of outer iterations that appended one *)
+Fixpoint srcset_loop (fuel : nat) (v : bytes) (i : Z) (acc : list bytes) (iters : Z) : res (list bytes * Z) :=
+  match fuel with
+  | O => Timeout
+  | S f =>
+      let inner := S (List.length v) in
+      i1 <- scan_while inner ws_or_comma v i ;;
+      if i1 >=? len v then Ok (acc, iters)
+      else
+        i2 <- scan_while inner not_ws v i1 ;;
+        cand <- slice v i1 i2 ;;
+        if has_suffix cand [ch ","]
+        then srcset_loop f v i2 (acc ++ [trim_right_set [ch ","] cand]) (iters + 1)
+        else (i3 <- scan_while inner not_comma v i2 ;;
+              srcset_loop f v i3 (acc ++ [cand]) (iters + 1))
+  end.
+
+Definition srcset_urls_steps (v : bytes) : res (list bytes * Z) :=
+  srcset_loop (S (List.length v)) v 0 [] 0.
+Definition srcset_urls (v : bytes) : res (list bytes) :=
+  r <- srcset_urls_steps v ;; Ok (fst r).
 
 (* ---------------------------------------------------------------------------------------
    internal/pkg/postprocessor/sitespecific/ina/ina.go  (no caller in the pipeline: dead code)
